@@ -79,3 +79,74 @@ pub(crate) fn model_client_conn(c: &Client) -> u64 {
 /// (see `model_client`), but its body must not be compiled in either -- Kani
 /// 0.68 aborts with an internal error on code reachable from it.
 pub(crate) fn client_inner_drop_stub(_this: &mut ClientInner) {}
+
+//@ name: c04_client_request_ids_distinct
+//@ prop: C04
+//@ tier: quick
+//@ clause: all request ids issued on one connection are distinct: from any state of the connection's counter (including just below the 2^64 wrap), four consecutive ids are pairwise different, so two calls in flight together never share a pending-map key
+//@ funcs: Client::next_request_id
+//@ symbolic: the counter value (full width)
+//@ bounds: 4 consecutive ids on one blocking Client
+//@ oracle: pairwise inequality; each id is the previous one plus 1 (mod 2^64)
+//@ stubs: RandomState::new -> fixed keys; <ClientInner as Drop>::drop -> no-op; Arc::drop_slow -> leak
+#[kani::proof]
+#[kani::stub(std::hash::RandomState::new, crate::verif_common::random_state_stub)]
+#[kani::stub(<ClientInner as std::ops::Drop>::drop, client_inner_drop_stub)]
+#[kani::stub(std::sync::Arc::drop_slow, crate::verif_common::arc_drop_slow_stub)]
+fn c04_client_request_ids_distinct() {
+    let start: u64 = kani::any();
+    let c = model_client(start);
+    let other = c.clone(); // clones share the connection and its counter
+    let a = c.next_request_id();
+    let b = other.next_request_id();
+    let d = c.next_request_id();
+    let e = other.next_request_id();
+    assert!(a != b && a != d && a != e && b != d && b != e && d != e, "two requests on one connection got the same id");
+    assert!(a == start && b == a.wrapping_add(1) && d == b.wrapping_add(1) && e == d.wrapping_add(1));
+    kani::cover!(a == u64::MAX);
+    std::mem::forget(c);
+    std::mem::forget(other);
+}
+
+static mut PAR_OK: bool = true;
+static mut PAR_N: usize = 1;
+fn available_parallelism_stub() -> std::io::Result<std::num::NonZeroUsize> {
+    unsafe {
+        if PAR_OK {
+            Ok(std::num::NonZeroUsize::new(PAR_N).unwrap())
+        } else {
+            Err(std::io::Error::from(ErrorKind::Unsupported))
+        }
+    }
+}
+
+//@ name: c04_batch_worker_count
+//@ prop: C04
+//@ tier: quick
+//@ clause: a batch always has a worker to fill each request's positional slot: for every batch size and every answer of the OS about available parallelism (any count, or an error) the worker count is at least 1 when there is work and never exceeds the number of requests or 64
+//@ funcs: client::batch_worker_count
+//@ symbolic: request count (full width), available parallelism (any non-zero usize, or Err)
+//@ bounds: none beyond the machine word
+//@ oracle: 0 for an empty batch; otherwise 1 <= workers <= min(requests, 64)
+//@ stubs: thread::available_parallelism -> symbolic answer
+#[kani::proof]
+#[kani::stub(std::thread::available_parallelism, available_parallelism_stub)]
+#[kani::unwind(4)]
+fn c04_batch_worker_count() {
+    let n: usize = kani::any();
+    let par: usize = kani::any();
+    kani::assume(par >= 1);
+    unsafe {
+        PAR_OK = kani::any();
+        PAR_N = par;
+    }
+    let w = batch_worker_count(n);
+    if n == 0 {
+        assert!(w == 0);
+    } else {
+        assert!(w >= 1, "no worker for a non-empty batch: every positional result would be missing");
+        assert!(w <= n && w <= 64, "more workers than requests or than the cap");
+    }
+    kani::cover!(n > 64 && w == 64);
+    kani::cover!(n > 4 && w == 4);
+}
